@@ -218,9 +218,15 @@ static void *rh_alloc_membind(hwloc_topology_t t, size_t len, hwloc_const_nodese
 static int rh_free(hwloc_topology_t t, void *a, size_t len) { free(a); return 0; }
 
 static int hooks_mode;
+static struct hwloc_binding_hooks saved_hooks; static struct hwloc_topology *saved_hooks_of;
+static void restore_installed_hooks(struct hwloc_topology *t)
+{
+  if (saved_hooks_of == t) memcpy(&t->binding_hooks, &saved_hooks, sizeof(saved_hooks));
+}
 static void install_recording_hooks(struct hwloc_topology *t, unsigned long pres)
 {
   struct hwloc_binding_hooks *h = &t->binding_hooks;
+  if (saved_hooks_of != t) { memcpy(&saved_hooks, h, sizeof(saved_hooks)); saved_hooks_of = t; }   /* what hwloc installed */
   memset(h, 0, sizeof(*h));
 #define P(i, slot, fn) if (pres & (1UL << (i))) h->slot = fn
   P(0, set_thisproc_cpubind, rh_set_thisproc_cpubind); P(1, get_thisproc_cpubind, rh_get_thisproc_cpubind);
@@ -351,7 +357,7 @@ int main(void)
     if (!strcmp(cmd, "echo")) { printf("%s\n", line); continue; }
     if (!strcmp(cmd, "new")) {
       if (t) hwloc_topology_destroy(t);
-      hwloc_topology_init(&t); loaded = 0; hooks_mode = 0;
+      hwloc_topology_init(&t); loaded = 0; hooks_mode = 0; saved_hooks_of = NULL;
 #ifndef HWV_LIVE
       os_intercept = 0;
 #endif
@@ -371,6 +377,12 @@ int main(void)
 #endif
       continue; }
     /* ---- derived topologies: the binding transcript then runs on the derivation ---- */
+    if (!strcmp(cmd, "restrict") && t && loaded) { /* restrict <set> <flags>: without REMOVE_CPULESS NUMA nodes that lose their CPUs stay */
+      hwloc_bitmap_t b = hwv_parse_set(a1); int rc = b ? hwloc_topology_restrict(t, b, strtoul(a2, NULL, 0)) : -1;
+      if (b) hwloc_bitmap_free(b);
+      if (rc) { printf("load rc=-1 errno=%s\n", hwv_errno_class(errno)); continue; }
+      print_info(t); continue;
+    }
     if ((!strcmp(cmd, "dup") || !strcmp(cmd, "adopt") || !strcmp(cmd, "xmlreload")) && t && loaded) {
       hwloc_topology_t n = NULL; int rc = -1;
       if (!strcmp(cmd, "dup")) rc = hwloc_topology_dup(&n, t);
@@ -400,7 +412,7 @@ int main(void)
         }
       }
       if (rc || !n) { printf("load rc=-1 errno=%s\n", hwv_errno_class(errno)); continue; }
-      hwloc_topology_destroy(t); t = n; hooks_mode = 0;
+      hwloc_topology_destroy(t); t = n; hooks_mode = 0; saved_hooks_of = NULL;
       print_info(t); continue;
     }
 #ifdef HWV_LIVE
@@ -504,6 +516,7 @@ int main(void)
 #ifndef HWV_LIVE
       else if (!strcmp(a1, "os")) {
         static int warmed;
+        restore_installed_hooks((struct hwloc_topology *)t); hooks_mode = 0;
         if (!warmed) {
           /* fill the function-static caches of topology-linux.c (kernel cpumask size, kernel max
            * numnodes) on a private 1-PU topology, so that what they hold depends on the scripted
